@@ -29,6 +29,7 @@ Cat == Catalogue(FMAXT) \o <<
   G("MultiLineString", <<<<<<1, 3>>, <<2, 3>>>>, <<<<4, 2>>, <<6, 2>>>>>>),
   G("BoundingBox", <<1, 0, 5, 3>>),
   G("TimeInterval", <<1, 5>>),
+  G("TimeInterval", <<6, 6>>),                                   \* a second zero-length interval, at another instant than <<3, 3>>
   G("Point", <<3, 2>>),
   \* regions with interior rings, and geometries strictly inside / across the hole
   G("MultiPolygon", <<<<<<<<0, 0>>, <<6, 0>>, <<6, 8>>, <<0, 8>>, <<0, 0>>>>, <<<<1, 1>>, <<5, 1>>, <<5, 7>>, <<1, 7>>, <<1, 1>>>>>>>>),
